@@ -21,7 +21,7 @@ from mxverif.core import Check
 ROBUST = (" Rules are evaluated on a semantics-preserving normal form of the source (helpers that are new relative to the pinned tree are "
           "inlined, read-only aliases propagated, no-ops dropped) and mostly on per-path summaries (forward expression propagation), so that "
           "renaming, re-staging, extracting helpers, match/isinstance/table dispatch and loop/comprehension variants read alike "
-          "(DESIGN.md section 11; 184 independent behaviour-preserving refactors pass). A shape outside what a rule recognises yields "
+          "(DESIGN.md section 11; 204 independent behaviour-preserving refactors pass). A shape outside what a rule recognises yields "
           "exit 2 naming the function; an exotic equivalent formulation can still draw a false alarm (section 11.3).")
 
 checks = []
